@@ -254,9 +254,9 @@ def _ns_case_st(draw, solver, clause):
     nullspace = clause == 'fixed' and solver in ('dr', 'admm')
     if zero_cert and family != 'strong':
         family = 'strong'
-    conds = [1.0, 3.0, 10.0, 10.0, 100.0]
+    conds = [1.0, 1.0, 3.0, 3.0, 10.0]
     if draw(st.integers(0, 9)) == 0:
-        conds = [1e3, 1e4]
+        conds = [1e2, 1e3, 1e4]
     p = {'seed': draw(st.integers(0, 2 ** 24)),
          'xscale': draw(st.sampled_from([1.0, 1.0, 5.0, 0.2])),
          'start_scale': draw(st.sampled_from([1.0, 3.0, 0.3])),
@@ -329,11 +329,12 @@ def _ns_case_st(draw, solver, clause):
             if zero_cert and not nullspace:
                 # kinked terms need L x* = 0: give them a kernel
                 want_null = draw(st.booleans())
-                od = draw(_op_st(sd, nullspace=want_null, compound_ok=False))
+                od = draw(_op_st(sd, conds=conds, nullspace=want_null,
+                                 compound_ok=False))
                 if not want_null:
                     tk = ('l2sq', 'box', 'zero', 'box')
             else:
-                od = draw(_op_st(sd, nullspace=nullspace,
+                od = draw(_op_st(sd, conds=conds, nullspace=nullspace,
                                  compound_ok=not nullspace))
             terms.append({'L': od, 'g': draw(_range_func_st(sd, od, tk))})
         mapping = 'datag'
@@ -1002,13 +1003,35 @@ def _setup(solver, P, case):
 from odl.solvers.nonsmooth.admm import admm_linearized  # noqa: E402
 
 
-def _cond_class(P, family):
+def _speed_numbers(P, family):
+    """(c1, c2, c3): condition of the data operator (of the constraint
+    operator for the equality-constrained family), largest condition of the
+    L_i over their non-zero singular values, and the scale mismatch
+    sqrt(||A||^2 + sum ||L_i||^2 max(1, Lip_i)) / sigma_min(A)."""
     if family == 'eqcon':
-        c = P.cond_eq
+        c1 = P.cond_eq
     else:
-        c = P.normA / max(P.sminA, 1e-300)
-    return 'lo' if c <= 10 * (1 + 1e-6) else \
-        ('mid' if c <= 100 * (1 + 1e-6) else 'hi')
+        c1 = P.normA / max(P.sminA, 1e-300)
+    c2, tot = 1.0, P.normA ** 2
+    for T in P.terms:
+        if T.fd['kind'] == 'indzero':
+            continue
+        sv = np.linalg.svd(pb.sym_matrix(T.lin.M, P.dX, T.lin.dY),
+                           compute_uv=False)
+        c2 = max(c2, _cond_of(sv))
+        lip = pb.ref_subdiff(T.fd, T.data, T.lin.op.range, T.lin.dY,
+                             T.lin.M @ P.xstar).lip
+        tot += T.lin.norm ** 2 * max(1.0, min(lip, 1e6))
+    c3 = np.sqrt(tot) / max(P.sminA, 1e-300) if family != 'eqcon' else c1
+    return float(c1), float(c2), float(c3)
+
+
+def _cond_class(P, family):
+    """'lo' / 'mid' / 'hi': the rate class of a first-order method on the
+    problem (drives the calibrated iteration budget)."""
+    c = max(_speed_numbers(P, family))
+    return 'lo' if c <= 4 * (1 + 1e-6) else \
+        ('mid' if c <= 12 * (1 + 1e-6) else 'hi')
 
 
 def _iterate(U, P, x, K, target, solver):
